@@ -86,8 +86,8 @@ theorem readBlocksP_nil (cfg : Cfg) (d : Decoder) (crc : Checksum) : readBlocksP
   rw [readBlocksP]
   split
   · rfl
-  · rename_i h; simp [readNextBlock, shorterThan] at h
-  · rename_i h; simp [readNextBlock, shorterThan] at h
+  · rename_i h; simp [readNextBlock, readNextBlockCore, shorterThan] at h
+  · rename_i h; simp [readNextBlock, readNextBlockCore, shorterThan] at h
 
 theorem readBlocksP_block (cfg : Cfg) (codec : Codec) (crc : Checksum) (es : List Entry) (rest : Bytes)
     (hg : GoodBlock es) :
